@@ -323,6 +323,20 @@ pub fn run_hist(ctx: &mut Ctx, h: &Hist) -> Result<(), String> {
         nfds: 0,
         outcome: Outcome { val: Some(SENTINEL), ..Default::default() },
     });
+    // a failing SET_FEATURES is scripted only when it leaves the one bit the model's gates look at (bit 30) unchanged:
+    // the statement does not say whether a refused feature set is recorded
+    {
+        let mut bit30 = false;
+        for r in h2.reqs.iter_mut() {
+            if r.code == fe::SET_FEATURES {
+                let new = spec::rd_u64(&r.body, 0) & spec::VIRTIO_F_PROTOCOL_FEATURES != 0;
+                if r.outcome.fail.is_some() && new != bit30 {
+                    r.outcome.fail = None;
+                }
+                bit30 = new;
+            }
+        }
+    }
     let (exp, calls) = expected(&h2);
 
     let mut rec = Rec::new(h.dev_features, h.dev_pf);
@@ -416,7 +430,7 @@ pub fn run_hist(ctx: &mut Ctx, h: &Hist) -> Result<(), String> {
 }
 
 fn outcome_for(code: u32) -> BoxedStrategy<Outcome> {
-    let never_fail = matches!(code, 2 | 16);
+    let never_fail = matches!(code, 16);
     (
         prop_oneof![3 => Just(None), 1 => (0u8..16).prop_map(Some)],
         prop_oneof![2 => Just(None), 1 => crate::engine::lat64().prop_map(Some)],
@@ -465,6 +479,7 @@ fn reduced_alphabet() -> Vec<Req> {
     a.push(mk(1, false, vec![], 0, &ok)); // GET_FEATURES
     a.push(mk(2, true, spec::b_u64(spec::VIRTIO_F_PROTOCOL_FEATURES), 0, &ok));
     a.push(mk(2, true, spec::b_u64(0), 0, &ok));
+    a.push(mk(2, true, spec::b_u64(1), 0, &fail)); // SET_FEATURES refused by the device (bit 30 clear)
     a.push(mk(15, true, vec![], 0, &ok)); // GET_PROTOCOL_FEATURES
     a.push(mk(16, true, spec::b_u64(0x3f_ffff), 0, &ok)); // all incl. REPLY_ACK
     a.push(mk(16, true, spec::b_u64(0x3f_ffff & !8), 0, &ok)); // without REPLY_ACK
@@ -490,14 +505,14 @@ pub fn run(ctx: &mut Ctx) {
                 outcome per request, from a fresh connection, written by a raw peer and served by the real BackendReqHandler; \
                 the wire output is compared frame by frame (backtracking matcher) with a reference protocol model, a sentinel \
                 GET_FEATURES proves byte-exact consumption. Exhaustive part: all words up to the stated depth over a reduced \
-                alphabet of 21 symbols x {PROTOCOL_FEATURES offered or not}; random part: proptest histories up to length 12. \
+                alphabet of 22 symbols x {PROTOCOL_FEATURES offered or not}; random part: proptest histories up to length 12. \
                 Non-trivial = an ack-type request with NEED_REPLY after a negotiation message, or a handler failure followed by \
                 another reply-bearing request; distinct by (code, NEED_REPLY, outcome, negotiated value) sequence."
         .into();
     ctx.assumptions = vec![
         "spec.rs request table and layouts are hand-transcribed from the vhost-user specification (trusted base)".into(),
         "tolerances: the SET_PROTOCOL_FEATURES that itself flips REPLY_ACK may or may not be acked; a request rejected before the handler (closed gate, unimplemented code, enable not in {0,1}) may produce nothing or one non-zero ack when an ack was due".into(),
-        "handler failures are not scripted for SET_FEATURES / SET_PROTOCOL_FEATURES (the statement does not say what is negotiated then)".into(),
+        "handler failures are not scripted for SET_PROTOCOL_FEATURES, and for SET_FEATURES only when bit 30 stays as it was (the statement does not say what is negotiated after a refused negotiation message)".into(),
         "payload content of the SET_LOG_BASE reply is spec-silent and accepted as is".into(),
     ];
 
@@ -531,6 +546,6 @@ pub fn run(ctx: &mut Ctx) {
     ctx.exhaustive = Some(true);
     ctx.enumerate("exhaustive_reduced", space, |ctx, h| run_hist(ctx, h));
 
-    let cases = ctx.tier.pick(3000u32, 200_000u32);
+    let cases = ctx.tier.pick(30_000u32, 400_000u32);
     ctx.prop_check("random_histories", cases, hist_strategy(12), |ctx, h| run_hist(ctx, h));
 }
